@@ -1849,3 +1849,53 @@ Example C01_eval_steps_example :
   l0_eval_steps [] RefineExamples.f0 EvalExamples.lsteps EvalExamples.nD ChainExamples.nC true
   = Ok (Frame.mkFrame [(HeapExamples.nA, ApplyExamples.dA); (EvalExamples.nD, Frame.ICol [32; 12; 7; 22]%Z)] [0; 1; 3; 2] false).
 Proof. exact EvalExamples.eval_steps_example. Qed.
+
+(*     (j) Eval end to end.  [compile] is Model/Eval.v's execute instrumented with the L0 steps it performs (Ops.apply with
+           one instruction on a temporary column, Ops.drop of temporaries, the error exits of getFunc / errorExpr);
+           C01_compile_ok: whenever it succeeds it returns what Eval.execute returns and folding the steps over the frame
+           gives the same frame; hence Eval.eval = the fold, then Copy and possibly Drop (C01_eval_as_steps).  Composed
+           with (i): the heap program for the steps the expression executes refines Model/Eval.v's eval
+           (C01_refines_eval).  Premises: the instrumented execution succeeds (a panic of tempColName or a missing
+           function after a passed getFunc is not covered), the heap steps are linked to the L0 steps one after the
+           other (esteps_link). *)
+Theorem C01_compile_ok ut cx e f s r name :
+  compile ut cx e f = Ok (s, r, name) ->
+  Eval.execute ut cx e f = Ok (r, name) /\ Filter.ofold (l0_run_step ut) s f = Ok r.
+Proof. exact (compile_ok ut cx e f s r name). Qed.
+Print Assumptions C01_compile_ok.
+
+Theorem C01_eval_as_steps ut cx f dst e s r name :
+  compile ut cx e f = Ok (s, r, name) ->
+  Eval.eval ut cx f dst e = l0_eval_steps ut f s dst name (negb (bytes_eqb name dst) && negb (Frame.contains f name)).
+Proof. exact (eval_as_steps ut cx f dst e s r name). Qed.
+Print Assumptions C01_eval_as_steps.
+
+Theorem C01_refines_eval env dec ut cx SL t n st qf f e dst hs ls r name name_ok :
+  step_ok env dec ut SL ->
+  ref_ok dec st qf -> abs1 dec st qf = Some f -> store_fresh t n st ->
+  compile ut cx e f = Ok (ls, r, name) ->
+  name_ok = Ops.check_name dst ->
+  esteps_link env dec ut SL t n st qf f hs ls ->
+  exists res n' st',
+    run env t (op_eval hs name_ok dst name (negb (bytes_eqb name dst) && negb (Frame.contains f name)) qf) n st = (res, n', st') /\
+    step_post dec (Eval.eval ut cx f dst e) t st res n' st'.
+Proof. exact (fun Hs => refines_eval env dec ut cx SL Hs t n st qf f e dst hs ls r name name_ok). Qed.
+Print Assumptions C01_refines_eval.
+
+(*     Eval("D", Expr("f", Expr("f", ColumnName("A")))) with f = x + 1 in the context: the expression compiles to two Applies
+       on the temporaries unary-temp-0 / unary-temp-1 and a Drop; premises and both sides computed *)
+Example C01_eval_premises_hold :
+  compile [] EvalExamples2.cxf EvalExamples2.ex RefineExamples.f0 = Ok (EvalExamples2.ls, EvalExamples2.rD, EvalExamples2.tmp1) /\
+  esteps_link HeapExamples.env0 dec_std [] (instr_link HeapExamples.env0) 1 0 HeapExamples.st0 HeapExamples.qf0 RefineExamples.f0
+              EvalExamples2.hs EvalExamples2.ls.
+Proof. exact (conj EvalExamples2.compile_example EvalExamples2.esteps_link_example). Qed.
+Example C01_eval_example :
+  (let '(r, _, st') := run HeapExamples.env0 1
+       (op_eval EvalExamples2.hs true EvalExamples2.nD EvalExamples2.tmp1
+                (negb (bytes_eqb EvalExamples2.tmp1 EvalExamples2.nD) && negb (Frame.contains RefineExamples.f0 EvalExamples2.tmp1))
+                HeapExamples.qf0) 0 HeapExamples.st0 in
+   match r with Ok q => option_map Ok (abs1 dec_std st' q) | _ => None end)
+  = Some (Eval.eval [] EvalExamples2.cxf RefineExamples.f0 EvalExamples2.nD EvalExamples2.ex) /\
+  Eval.eval [] EvalExamples2.cxf RefineExamples.f0 EvalExamples2.nD EvalExamples2.ex
+  = Ok (Frame.mkFrame [(HeapExamples.nA, ApplyExamples.dA); (EvalExamples2.nD, Frame.ICol [32; 12; 7; 22]%Z)] [0; 1; 3; 2] false).
+Proof. exact EvalExamples2.eval_example. Qed.
